@@ -186,6 +186,7 @@ static void check(const Case &cc) {
     if ((c.fn == DISK || c.fn == DISKDIST || c.fn == NEIGHBOR) && (!ref::valid_cell(c.h) || (c.fn == NEIGHBOR && !ref::valid_cell(c.q)))) COUNT("error_path.invalid_cell_argument");
     if (base.code == E_MEMORY_BOUNDS) COUNT("error_path.E_MEMORY_BOUNDS(capacity too small)");
     if (c.fn >= POLYFILL) { bool bad = false; auto scan = [&](const std::vector<LatLng> &l) { for (auto &v : l) if (!std::isfinite(v.lat) || !std::isfinite(v.lng) || fabs(v.lat) > 10 || fabs(v.lng) > 10) bad = true; }; scan(c.g.outer); for (auto &h : c.g.holes) scan(h); if (bad) COUNT("error_path.malformed_coordinate"); }
+    if (c.fn == COMPACT && !c.cells.empty()) { size_t z = 0; for (uint64_t x : c.cells) if (!x) z++; if (z) COUNT("compact.input_holds_H3_NULL"); if (c.cells[0] == 0 && z < c.cells.size()) COUNT("compact.input_starts_with_H3_NULL"); }
     if (c.fn == COMPACT && base.code == E_SUCCESS) { bool toBase = false; for (uint64_t x : base.out) if (x && ref::res_of(x) == 0) toBase = true; if (toBase) COUNT("compact.reaches_resolution_0"); }
     static Counter faults("fault_points_enumerated");
     faults.n += (uint64_t)(2 * idxs.size());
@@ -261,6 +262,16 @@ static Case draw() {
             if (err == 3 && !v.empty()) v[(size_t)(r64() % v.size())] = 0x7fffffffffffffffULL;  // invalid cell
             uint64_t s = r64();
             for (size_t i = v.size(); i > 1; i--) std::swap(v[i - 1], v[(size_t)(splitmix(s) % i)]);
+            // sparse input: compactCells skips H3_NULL entries (its own output is zero-padded, and callers feed it back); zeros at the
+            // front, in the middle and at the end — a leading zero decides which resolution the run is taken to have
+            if (rpick({3, 1}) == 1 && !v.empty()) {
+                int nz = ri(1, 4);
+                int where = rpick({2, 1, 1});
+                for (int z = 0; z < nz; z++) {
+                    size_t pos = where == 0 ? 0 : where == 1 ? (size_t)(r64() % (v.size() + 1)) : v.size();
+                    v.insert(v.begin() + (long)pos, 0);
+                }
+            }
             c.cells = v;
             break;
         }
